@@ -258,11 +258,11 @@ def r2(repo, chk):
     # end-of-stream is attached to the frame that really is the last thing of the stream: nothing buffered behind it
     for c in resumes:
         se = get_kw(c, "stream_ended")
-        chk.ob("R2", "a resumed frame carries end-of-stream only if the stream ended and nothing is buffered behind the frame", se is not None and norm(se) == f"{S}.receiving_ended and (not {S}.buffer)", f"stream_ended={norm(se) if se is not None else None}: end-of-stream would be reported before (and again after) the buffered frames, depending on when the encoder stream arrived", uni.loc(c))
+        chk.ob("R2", "a resumed frame carries end-of-stream only if the stream ended and nothing is buffered behind the frame", se is not None and uni.expand(se, 2) in (f"{S}.receiving_ended and (not {S}.buffer)", "{0}.receiving_ended and (not {0}.buffer)".format(uni.expand(ast.parse(S, mode="eval").body, 1))), f"stream_ended={norm(se) if se is not None else None}: end-of-stream would be reported before (and again after) the buffered frames, depending on when the encoder stream arrived", uni.loc(c))
     for c in rr.calls(name="self._handle_request_or_push_frame"):
         se = get_kw(c, "stream_ended")
         if _loop_of(c) is not None:
-            chk.ob("R2", "in the parse loop a frame carries end-of-stream only if the stream ended and the frame is the last thing in the buffer", se is not None and norm(se) == "stream.receiving_ended and buf.eof()", f"stream_ended={norm(se) if se is not None else None}", rr.loc(c))
+            chk.ob("R2", "in the parse loop a frame carries end-of-stream only if the stream ended and the frame is the last thing in the buffer", se is not None and rr.expand(se, 2) == "stream.receiving_ended and buf.eof()", f"stream_ended={norm(se) if se is not None else None}", rr.loc(c))
     ie = Fn(repo, "h3.connection:H3Stream.is_ended")
     rets = [r for r in ie.returns() if r.value is not None]
     ok = bool(rets) and all("not self.blocked" in norm(r.value) and " or " not in norm(r.value) for r in rets)
@@ -365,5 +365,5 @@ def r4(repo, chk):
         ok = ok and any(norm(s) == "stream.buffer = b''" for s in blk) and isinstance(blk[-1], ast.Return)
     chk.ob("R4", "the DATA shortcut applies only inside a DATA frame whose remainder exceeds the buffered bytes, and empties the buffer", ok, "", rr.loc(rr.node))
     ended = [c for c in rr.calls(name="self._handle_request_or_push_frame")]
-    ok = len(ended) == 1 and norm(get_kw(ended[0], "stream_ended")) == "stream.receiving_ended and buf.eof()"
+    ok = len(ended) == 1 and rr.expand(get_kw(ended[0], "stream_ended"), 2) == "stream.receiving_ended and buf.eof()"
     chk.ob("R4", "end of stream is attached to the frame that consumes the last buffered byte after the FIN was seen", ok, "", rr.loc(rr.node))
